@@ -214,10 +214,13 @@ def read_domain_tree(tree):
         body = dict(zip(sec[2::2], sec[3::2]))
         params = typed_list(body.get(":parameters", []))
         pre = rd_formula(body.get(":precondition", []), D["predicates"], D["functions"])
-        if pre[0] != "and":
+        single = pre[0] != "and"
+        if single:
             pre = ("and", [pre])
         eff = rd_effects(body.get(":effect", []), D["predicates"], D["functions"])
         D["actions"][name] = {"params": [(a, b) for a, b in params], "pre": pre, "eff": eff}
+        if single:
+            D["actions"][name]["pre_single_literal"] = True  # source form ':precondition (p ?x)' without 'and'
     return D
 
 
